@@ -87,7 +87,8 @@ where
         F: Fn(char) -> bool,
     {
         let mut results: Vec<ResultTextSelection<'store>> = Vec::with_capacity(fragments.len());
-        let mut begin: usize = 0;
+        let offset = self.absolute_cursor(0); //begin and the matches are absolute, self.textselection() takes relative offsets
+        let mut begin: usize = offset;
         let mut textselectionresult = self.textselection(&Offset::whole());
         for fragment in fragments {
             if let Ok(searchtext) = textselectionresult {
@@ -99,7 +100,7 @@ where
                     if m.begin() > begin {
                         //we skipped some text since last match, check the characters in between matches
                         let skipped_text = self
-                            .textselection(&Offset::simple(begin, m.begin()))
+                            .textselection(&Offset::simple(begin - offset, m.begin() - offset))
                             .expect("textselection must succeed")
                             .text();
                         for c in skipped_text.chars() {
